@@ -21,6 +21,7 @@ import h11
 
 from ..core import clients as C
 from ..core import h11sessions as HS
+from ..core import h1total as HT
 from ..core import h2recv as H
 from ..core import runner as R
 from ..core.framework import Ctx, b2s, s2b
@@ -28,16 +29,18 @@ from ..core.framework import Ctx, b2s, s2b
 SPEC = {
     "modules": ["HC.Props.C04"],
     "extracted": ["C04Sites", "H11Tables"],
-    "technique": "Lean 4 theorems over an Except-valued executable model of the receive-side glue of H2Protocol (every `try`/`except` clause extracted from the source per site, class membership from the installed libraries' MRO, libraries as oracles restricted by LibWf) and over the H11Protocol / WSStream models: totality for every library-event sequence, application behaviour and schedule; the HTTP/1 error path; non-interference of the merely unusual streams.  Tied by replaying the tap log of real H2Protocol runs through the model (calls, dictionaries, priority tree, uncaught exceptions, LibWf per answer) and by robustness monitors on the real TCPServer of both workers over corpus, random, mutated and grammar-generated inputs",
-    "level_text": "Proved in Lean (HC/Props/C04.lean over HC/Proto/H2Recv.lean): for EVERY sequence of h2 events, application sends (stream_send), send-task iterations, closes and shutdown, with every answer the h2 and priority libraries can give (LibWf: h2 raises only ProtocolError subclasses, priority only PriorityError subclasses, MissingStreamError iff absent, DuplicateStreamError iff present, RequestReceived has :method and has :path unless it is an ordinary CONNECT), no exception escapes the reader, stream_send or the send task (total_h2_partial / total_h2_from; invariant: every buffered stream is in the priority tree) - except RecursionError out of next(priority) on a ~1000 deep dependency chain, which is the proved negation witness total_h2_fails_as_is (finding F44); receive_data raising any ProtocolError yields exactly flush (GOAWAY) then Closed with no state touched (h2_protocol_error); leaving out the merely unusual events of a stream (DATA/END_STREAM after its response completed, CONNECT without :path, non-ASCII :method/:path) leaves the final state and every other stream's observation identical (isolation, odd_step), and those requests are answered by exactly one send_headers on their own stream (unusual_request_answered, createStream_rejected).  HTTP/1 (over the H11Protocol model of C06): a RemoteProtocolError with hint h while no completed request is being answered and h11's writer is IDLE or SEND_RESPONSE produces exactly send(Response h [content-length 0, connection close, server headers]), send(EndOfMessage), Closed, the reader leaves the loop and no application or stream is created (h1_malformed, h1_malformed_no_app); in any other writer state only Closed (h1_malformed_other_state); that path handles the error in every state (h1_protocol_error_total).  Every except tuple, the raw_path default/guard, the decode check, the order of tree entry vs stream creation, the HTTP/1 error states and error headers and the WSStream early-data state are extracted from the source on every run (h1_error_guard, ws_early_data_guard and the catches_* lemmas fail to build when they change); the exception class hierarchy is read from the installed h2 / priority / h11 / wsproto.  Totality of the HTTP/1 and WebSocket flows beyond the error path is not restated as a theorem here: it rests on the C06/C10/C11 models' differential runs and on this check's monitors.",
+    "technique": "Lean 4 theorems over an Except-valued executable model of the receive-side glue of H2Protocol (every `try`/`except` clause extracted from the source per site, class membership from the installed libraries' MRO, libraries as oracles restricted by LibWf) and over the H11Protocol / WSStream models: totality for every library-event sequence, application behaviour and schedule; the HTTP/1 error path; non-interference of the merely unusual streams.  Tied by replaying the tap log of real H2Protocol runs through the model (calls, dictionaries, priority tree, uncaught exceptions, LibWf per answer), by replaying adversarial direct-drive sessions of the real H11Protocol (any application message to any stream object at any time, WebSocket frames of every kind, closes, shutdown, the deferred StreamClosed) through `c04.h1total` (LibWf per op, escape site <=> handler exception, never rejected, h11 states) and by robustness monitors on the real TCPServer of both workers over corpus, random, mutated and grammar-generated inputs",
+    "level_text": "Proved in Lean (HC/Props/C04.lean over HC/Proto/H2Recv.lean): for EVERY sequence of h2 events, application sends (stream_send), send-task iterations, closes and shutdown, with every answer the h2 and priority libraries can give (LibWf: h2 raises only ProtocolError subclasses, priority only PriorityError subclasses, MissingStreamError iff absent, DuplicateStreamError iff present, RequestReceived has :method and has :path unless it is an ordinary CONNECT), no exception escapes the reader, stream_send or the send task (total_h2_partial / total_h2_from; invariant: every buffered stream is in the priority tree) - except RecursionError out of next(priority) on a ~1000 deep dependency chain, which is the proved negation witness total_h2_fails_as_is (finding F44); receive_data raising any ProtocolError yields exactly flush (GOAWAY) then Closed with no state touched (h2_protocol_error); leaving out the merely unusual events of a stream (DATA/END_STREAM after its response completed, CONNECT without :path, non-ASCII :method/:path) leaves the final state and every other stream's observation identical (isolation, odd_step), and those requests are answered by exactly one send_headers on their own stream (unusual_request_answered, createStream_rejected).  HTTP/1 (over the H11Protocol model of C06): a RemoteProtocolError with hint h while no completed request is being answered and h11's writer is IDLE or SEND_RESPONSE produces exactly send(Response h [content-length 0, connection close, server headers]), send(EndOfMessage), Closed, the reader leaves the loop and no application or stream is created (h1_malformed, h1_malformed_no_app); in any other writer state only Closed (h1_malformed_other_state); that path handles the error in every state (h1_protocol_error_total).  Every except tuple, the raw_path default/guard, the decode check, the order of tree entry vs stream creation, the HTTP/1 error states and error headers and the WSStream early-data state are extracted from the source on every run (h1_error_guard, ws_early_data_guard and the catches_* lemmas fail to build when they change); the exception class hierarchy is read from the installed h2 / priority / h11 / wsproto.  HTTP/1 + WebSocket whole flow (HC/Proto/H11Total|H11Inv|H11Run|H11Ev|H11Safe.lean, HC/Stream/WsTotal.lean): the two meanings of the model's `none` are separated without changing what the driver reports - `enabled` (LibWf: which next_event() / H11WSConnection / wsproto results are possible in which h11 state and mode, header names as h11 hands them over, the reassembly state of wsproto's messages; scheduling: a read starts only when the previous handle(RawData) returned, no application runs between a Request with Expect and the 100 Continue at the next loop top) and `escapeEv` (every place where an exception can leave _handle_events, including the LocalProtocolError _send_h11_event re-raises for the 100 Continue, the error response, the 101 of an h2c upgrade and a stream's own 404/400); h1_rejected_classified: every `none` is one of the two.  total_h1 / total_h1_from / total_h1_step: for EVERY op sequence satisfying LibWf - library events, sends of ANY application (valid or not) on ANY stream object (live or orphaned), handle(Closed), shutdown, the deferred StreamClosed of a self-answering stream, in every interleaving - no op lets an exception escape the connection handler and the model accepts every op (total_h1_never_rejected); invariant: every stream object is inert or it is the latest one and h11's reader side is past IDLE; an unfinished HTTP response keeps h11's writer out of IDLE/DONE/MUST_CLOSE (so recycling finds only inert objects); a WebSocket stream in HANDSHAKE has the writer in SEND_RESPONSE with the upgrade proposal registered (so the 400 for early data and every denial head are accepted); the 100-continue flag is only up between a Request and the next loop top.  total_ws / total_ws_from: WSStream.handle never raises for any sequence of wsproto events allowed by the library's reassembly state (fragments of one message have one kind), any application messages (with or without a raising protocol) and closes; total_ws_needs_libWf shows the restriction is necessary (a BytesMessage fragment inside a text message raises TypeError in WebsocketBuffer.extend).",
     "level_note": "Trusted: Lean kernel; tools/extract_c04.py (per-try-site extraction); the hand-written model HC/Proto/H2Recv.lean (one _send_data iteration is atomic in it; stream objects are opaque: their handle() does not raise - for WSStream that is the content of total_ws, for HTTPStream the type of Http.handle - apart from the ASCII path they require of a Request); LibWf is an assumption about h2 4.4.1 / priority 2.0.0 that is checked on every tap log of this run (an answer outside LibWf is reported as a disagreement); h2's, h11's and wsproto's own byte-level parsers are library behaviour: 'every byte string' is a theorem over every library-event sequence plus sampled bytes -> events.  The h2c upgrade path (ProtocolWrapper / H2CProtocolRequiredError) is covered by the monitors only.",
     "rule": "distinct = distinct sequences (length <= 8 window) of (library event kind, stream-state class in {unknown, live, forgotten, conn}) that reached the glue in direct-drive runs, plus distinct (family, generator class, segmentation, worker) cells end-to-end; non-trivial = the sequence contains an event for a forgotten/unknown stream, a refused or rejected request, a PRIORITY event, a reset, or receive_data raised",
     "trusted": ["h2 4.4.1 / hpack / hyperframe / priority 2.0.0 / h11 0.16 / wsproto as libraries (LibWf sampled by taps)",
                 "hyperframe + hpack as the harness's own frame writer and tolerant output parser; h11 in server role as the oracle for 'malformed HTTP/1 with hint h'"],
     "partial": ["F44 (RecursionError from next(priority) on a ~1000 deep PRIORITY dependency chain): total_h2 holds only as total_h2_partial, negation witness total_h2_fails_as_is; listed in known_findings.json",
                 "F43 (h2c upgrade with an undecodable HTTP2-Settings header): monitors only, listed in known_findings.json",
-                "total_h1 / total_ws are not proved as whole-flow theorems: for HTTP/1 the error path (h1_malformed*) is, the rest of the HTTP/1 and WebSocket receive paths is covered by the monitors (corpus, mutation of recorded HTTP/1 / WebSocket sessions, both workers) and by the differential runs of C06/C10/C11 on the same models"],
-    "assumptions": ["one `_send_data` iteration is atomic in the model (its interleaving with `_reset_abandoned_response` is C05/C08 territory)",
+                "total_h1 / total_ws are theorems about one-op-at-a-time models: the awaits INSIDE one op (e.g. the reader handling WebSocket bytes while the application's own 500 / accept is suspended in a write) are not interleavings of the model; they are covered by the end-to-end monitors on both workers only (F40 and F45 were such windows)",
+                "h11's body-framing checks (too much / too little data for a declared Content-Length) are outside the state machine H11M: they raise LocalProtocolError into the application's send only (no reader-side send declares a length it does not keep)"],
+    "assumptions": ["HTTP/1: one op of HC.Proto.H11 (the handling of one next_event() result, one app_send, handle(Closed)) is atomic; no application step between a Request carrying Expect: 100-continue and the 100 Continue sent at the top of the reader's next iteration (there is no suspension point in between; `sched`)",
+                    "one `_send_data` iteration is atomic in the model (its interleaving with `_reset_abandoned_response` is C05/C08 territory)",
                     "config.h2_max_concurrent_streams stays far below the interpreter's recursion limit"],
 }
 
@@ -54,7 +57,17 @@ WS_REJECT_DONE = [["recv"], ["send", {"type": "websocket.http.response.start", "
 WS_CLOSE_403 = [["recv"], ["send", {"type": "websocket.close"}], ["sleep", 2.0]]
 SLOW_APP = [["recv_body"], ["sleep", 3.0], ["send", {"type": "http.response.start", "status": 200, "headers": []}],
             ["send", {"type": "http.response.body", "body": b"ok"}]]
-SCRIPTS = {"ok": OK_APP, "early": EARLY_APP, "ws": WS_APP, "ws_reject_more": WS_REJECT_MORE, "ws_reject_done": WS_REJECT_DONE,
+WS_RETURN_NOW = [["return"]]
+WS_RAISE_NOW = [["raise"]]
+WS_REJECT_NOW = [["send", {"type": "websocket.http.response.start", "status": 403, "headers": []}],
+                 ["send", {"type": "websocket.http.response.body", "body": b"no"}], ["sleep", 1.0]]
+WS_REJECT_MORE_NOW = [["send", {"type": "websocket.http.response.start", "status": 403, "headers": []}],
+                      ["send", {"type": "websocket.http.response.body", "body": b"no", "more_body": True}], ["sleep", 0.5],
+                      ["send", {"type": "websocket.http.response.body", "body": b""}], ["sleep", 1.0]]
+WS_CLOSE_NOW = [["send", {"type": "websocket.close"}], ["sleep", 1.0]]
+WS_ACCEPT_NOW = [["send", {"type": "websocket.accept"}], ["send", {"type": "websocket.send", "text": "x"}], ["sleep", 1.0]]
+SCRIPTS = {"ws_return_now": WS_RETURN_NOW, "ws_raise_now": WS_RAISE_NOW, "ws_reject_now": WS_REJECT_NOW, "ws_reject_more_now": WS_REJECT_MORE_NOW,
+           "ws_close_now": WS_CLOSE_NOW, "ws_accept_now": WS_ACCEPT_NOW, "ok": OK_APP, "early": EARLY_APP, "ws": WS_APP, "ws_reject_more": WS_REJECT_MORE, "ws_reject_done": WS_REJECT_DONE,
            "ws_close_403": WS_CLOSE_403, "slow": SLOW_APP}
 
 
@@ -555,6 +568,13 @@ def corpus() -> List[dict]:
                                      (b"sec-websocket-version", b"13")])
     for name, script in (("more", "ws_reject_more"), ("done", "ws_reject_done"), ("close403", "ws_close_403")):
         h1case(f"F40_ws_data_during_rejection_{name}", [ws, b"\x81\x02hi"], scripts=(script,), waits={1: 0.2})
+    # the handshake and a frame in ONE read, the application answering (or leaving) at once: the answer is being written while the
+    # reader handles the early data (F98: 500 of a finished application; F99: head of a rejection; close / accept for completeness)
+    frame = b"\x81\x82\x00\x00\x00\x00hi"
+    for name, script in (("F98_ws_app_exit_500_with_early_data", "ws_return_now"), ("F98_ws_app_raise_500_with_early_data", "ws_raise_now"),
+                         ("F99_ws_rejection_head_with_early_data", "ws_reject_now"), ("F99_ws_rejection_more_with_early_data", "ws_reject_more_now"),
+                         ("ws_close_at_once_with_early_data", "ws_close_now"), ("ws_accept_at_once_with_early_data", "ws_accept_now")):
+        h1case(name, [ws + frame], scripts=(script,))
     h1case("F41_host_not_utf8_server_names", [b"GET / HTTP/1.1\r\nhost: \xff\r\n\r\n"], cfg={"server_names": ["x"]})
     h1case("F43_h2c_settings_not_utf8", [b"GET / HTTP/1.1\r\nhost: x\r\nupgrade: h2c\r\nhttp2-settings: \xff\xfe\r\n\r\n"])
     h1case("F43_h2c_settings_short", [b"GET / HTTP/1.1\r\nhost: x\r\nupgrade: h2c\r\nhttp2-settings: AAAA\r\n\r\n"])
@@ -610,6 +630,18 @@ def gen_e2e(ctx: Ctx) -> List[dict]:
                         c["waits"] = {}
                     c["bounded"] = True
                     cases.append(c)
+    # WebSocket over HTTP/1: the handshake with frames right behind it (same read or the next one) x applications that answer the
+    # handshake at once or leave - the answer is being written while the reader handles the early data (F45, F98, F99)
+    wsreq = C.h1_request("GET", "/ws", [(b"host", b"x"), (b"upgrade", b"websocket"), (b"connection", b"Upgrade"), (b"sec-websocket-key", HS.WS_KEY),
+                                        (b"sec-websocket-version", b"13")])
+    answers = ["ws_return_now", "ws_raise_now", "ws_reject_now", "ws_reject_more_now", "ws_close_now", "ws_accept_now", "ws", "ws_reject_done", "ws_close_403"]
+    for i in range(ctx.budget(2 * len(answers), 20 * len(answers))):
+        frames = HT.ws_frames(rng, rng.choice([1, 1, 2, 4]))
+        seg = rng.choice(["one", "one", "two", "random"])
+        data = wsreq + frames
+        reads = [data] if seg == "one" else ([wsreq, frames] if seg == "two" else cut(rng, data, "random"))
+        cases.append({"family": "ws_answer_race", "proto": "h1", "name": answers[i % len(answers)], "seg": seg, "reads": [b2s(x) for x in reads],
+                      "scripts": [answers[i % len(answers)]], "eof": rng.random() < 0.7})
     # random bytes
     for i in range(ctx.budget(24, 250)):
         n = rng.choice([1, 3, 9, 24, 60, 300, 5000, 20000])
@@ -971,6 +1003,8 @@ def run(ctx: Ctx) -> None:
     check_e2e(ctx, corpus())
     direct = [gen_direct(ctx.rng, i) for i in range(ctx.budget(500, 8000))]
     check_direct(ctx, direct)
+    # HTTP/1 + WebSocket whole flow: LibWf / escape sites of total_h1 on adversarial direct-drive sessions of the real H11Protocol
+    HT.check(ctx, [HT.gen_case(ctx.rng, i) for i in range(ctx.budget(250, 5000))])
     check_e2e(ctx, gen_e2e(ctx))
 
 
@@ -978,11 +1012,14 @@ def search(ctx: Ctx) -> None:
     """a proof obligation or the correspondence broke: corpus of unusual-but-legal sequences, then grammar fuzz again"""
     check_e2e(ctx, corpus())
     check_direct(ctx, [gen_direct(ctx.rng, i) for i in range(ctx.budget(400, 12000))])
+    HT.check(ctx, [HT.gen_case(ctx.rng, i) for i in range(ctx.budget(400, 8000))])
     check_e2e(ctx, gen_e2e(ctx))
 
 
 def replay(ctx: Ctx, case: dict) -> None:
     if case.get("family") == "direct":
         check_direct(ctx, [case])
+    elif case.get("family") == "h1direct":
+        HT.check(ctx, [case.get("case", case)])
     else:
         check_e2e(ctx, [case])
